@@ -20,6 +20,7 @@ type specEnv struct {
 	pkg    *types.Package
 	allocB Term // allocation bound for fresh(): identities >= allocB are fresh
 	depth  int
+	fuel   map[string]string // recursive ghost name -> SMT symbol to use for recursive calls
 }
 
 func (env *specEnv) with(name string, b binding) *specEnv {
@@ -73,6 +74,13 @@ func (env *specEnv) resolveType(s string) types.Type {
 			return nil
 		}
 		return types.NewArray(el, -1)
+	}
+	if strings.HasPrefix(s, "heap[") && strings.HasSuffix(s, "]") {
+		el := env.resolveType(s[5 : len(s)-1])
+		if el == nil {
+			return nil
+		}
+		return types.NewArray(el, -2)
 	}
 	if strings.HasPrefix(s, "[]") {
 		el := env.resolveType(s[2:])
@@ -676,6 +684,29 @@ func (env *specEnv) evalCall(x SCall) (Val, types.Type) {
 		}
 		h := vc.heap(env.st, vc.elemKey(elem), HeapSort(vc.sortOf(elem)))
 		return Select(h, SBase(s)), types.NewArray(elem, -1)
+	case "heapfor":
+		// heapfor("T"): the current heap holding the cells of slices with element type T
+		str, ok := x.Args[0].(SStr)
+		if !ok {
+			env.fail("heapfor needs a string literal type")
+			return IntLit(0), tInt
+		}
+		elem := env.resolveType(str.Val)
+		if elem == nil || structOf(elem) != nil {
+			env.fail("heapfor: bad element type %s", str.Val)
+			return IntLit(0), tInt
+		}
+		h := vc.heap(env.st, vc.elemKey(elem), HeapSort(vc.sortOf(elem)))
+		return h, types.NewArray(elem, -2)
+	case "cellsIn":
+		h, ht := arg(0)
+		sl, _ := arg(1)
+		ha, ok := ht.(*types.Array)
+		if !ok || ha.Len() != -2 {
+			env.fail("cellsIn: first argument must be a heap")
+			return IntLit(0), tInt
+		}
+		return Select(h, SBase(sl)), types.NewArray(ha.Elem(), -1)
 	case "fresh":
 		v, t := arg(0)
 		if env.allocB.S == "" {
@@ -856,7 +887,7 @@ func (env *specEnv) callGhost(g *GhostFunc, x SCall) (Val, types.Type) {
 		env.fail("ghost %s: want %d args, got %d", g.Name, len(g.Params), len(x.Args))
 		return IntLit(0), tInt
 	}
-	genv := &specEnv{vc: vc, st: env.st, old: env.old, pkg: vc.pkgByPath(g.Pkg), allocB: env.allocB, depth: env.depth + 1, names: map[string]binding{}}
+	genv := &specEnv{vc: vc, st: env.st, old: env.old, pkg: vc.pkgByPath(g.Pkg), allocB: env.allocB, depth: env.depth + 1, names: map[string]binding{}, fuel: env.fuel}
 	resT := genv.resolveType(g.Result)
 	if resT == nil {
 		env.fail("ghost %s: unknown result type %s", g.Name, g.Result)
@@ -891,8 +922,13 @@ func (env *specEnv) callGhost(g *GhostFunc, x SCall) (Val, types.Type) {
 		}
 		return genv.eval(g.Body)
 	}
-	// uninterpreted function with definitional axiom
+	// uninterpreted function with definitional axiom (two levels of unfolding fuel)
 	fn := "g!" + g.Name
+	if env.fuel != nil {
+		if sym, ok := env.fuel[g.Name]; ok {
+			fn = sym
+		}
+	}
 	var sorts []Sort
 	var ats []Term
 	for i := range g.Params {
@@ -907,19 +943,24 @@ func (env *specEnv) callGhost(g *GhostFunc, x SCall) (Val, types.Type) {
 	rs := vc.sortOf(resT)
 	if !vc.usedGhost[g.Name] {
 		vc.usedGhost[g.Name] = true
-		vc.declFun(fn, sorts, rs)
+		top, mid, bot := "g!"+g.Name, "g!"+g.Name+"!1", "g!"+g.Name+"!0"
+		vc.declFun(top, sorts, rs)
 		if g.Body != nil {
-			// forall params :: f(params) == body
-			aenv := &specEnv{vc: vc, st: &State{pc: True, vars: map[*types.Var]Val{}, heaps: map[string]Term{}, alloc: Term{"alloc0", SInt}}, pkg: genv.pkg, names: map[string]binding{}, depth: env.depth + 1}
-			var bvs []Term
-			for i, p := range g.Params {
-				bv := Term{p.Name + "?", sorts[i]}
-				bvs = append(bvs, bv)
-				aenv.names[p.Name] = binding{bv, atypes[i]}
+			vc.declFun(mid, sorts, rs)
+			vc.declFun(bot, sorts, rs)
+			for _, lv := range [][2]string{{top, mid}, {mid, bot}} {
+				aenv := &specEnv{vc: vc, st: &State{pc: True, vars: map[*types.Var]Val{}, heaps: map[string]Term{}, alloc: Term{"alloc0", SInt}}, pkg: genv.pkg, names: map[string]binding{}, depth: env.depth + 1,
+					fuel: map[string]string{g.Name: lv[1]}}
+				var bvs []Term
+				for i, p := range g.Params {
+					bv := Term{p.Name + "?", sorts[i]}
+					bvs = append(bvs, bv)
+					aenv.names[p.Name] = binding{bv, atypes[i]}
+				}
+				body, _ := aenv.evalTerm(g.Body)
+				app := App(rs, lv[0], bvs...)
+				vc.assumeGlobal(Forall(bvs, [][]Term{{app}}, And(Eq(app, body), Eq(app, App(rs, lv[1], bvs...)))))
 			}
-			body, _ := aenv.evalTerm(g.Body)
-			app := App(rs, fn, bvs...)
-			vc.assumeGlobal(Forall(bvs, [][]Term{{app}}, Eq(app, body)))
 		}
 	}
 	return App(rs, fn, ats...), resT
